@@ -94,7 +94,8 @@ def configs(tier, seed):
     for pi in range(len(THREAD_BODIES)):
         for Mt in (4, 64):
             for start in (0, 1):
-                out.append(('threads', pi, Mt, start, 2 if (tier == 'thorough' and pi == 0 and Mt == 4) else 1))
+                for lo, hi in ((0, 250), (250, 500), (500, 10 ** 9)):       # (first deviating point of the schedule: a shard each)
+                    out.append(('threads', pi, Mt, (start, lo, hi), 2 if (tier == 'thorough' and pi == 0 and Mt == 4) else 1))
     for first in range(len(SEQ_KINDS)):
         out.append(('appseq', first, 4, False, None))
         out.append(('appseq', first, 64, False, None))
@@ -520,7 +521,8 @@ def work_threads(res, pi, M, start, bound):
     from vf.sched import explore
     c = res['counters']
     pair = THREAD_BODIES[pi]
-    for prefix, x in explore(lambda p: run_threads(sut.load(fresh=True), M, pair, p), bound, base=(start,)):
+    start, lo, hi = start
+    for prefix, x in explore(lambda p: run_threads(sut.load(fresh=True), M, pair, p), bound, base=(start,), first_points=(lo, hi)):
         res['states'] += 1
         res['transitions'] += len(x.points)
         res['execs'] += 1
